@@ -278,3 +278,47 @@ Proof.
   - repeat constructor.
   - repeat constructor; simpl; intuition discriminate.
 Qed.
+
+(** Non-vacuity of [C03_load_order_irrelevant]: every hypothesis instantiated on
+    a concrete start state and two orders of the same plain (merge=True) loads --
+    [cache_ok], [is_plain_load], distinct levels, [Permutation], both runs clean
+    -- and the conclusion obtained FROM the theorem. *)
+Example C03_example_load_order_irrelevant :
+  let fs := [(("sys", "yml"), FData (Node [("a", Leaf (VInt 2))]));
+             (("sys", "json"), FData (Node [("a", Leaf (VInt 3))]))] in
+  let c := blank (Node []) (Node []) (Some "sys") (Some "usr") None None "INVOKE_" in
+  let d := LoadDefaults (Node [("a", Leaf (VInt 1)); ("b", Leaf (VInt 1))]) in
+  let o := LoadOverrides (Node [("b", Leaf (VInt 9))]) in
+  let ops1 := [d; LoadSystem; o] in
+  let ops2 := [o; d; LoadSystem] in
+  cache_ok c /\
+  Forall (fun x => is_plain_load x = true) ops1 /\ NoDup (map load_tag ops1) /\
+  Permutation ops1 ops2 /\
+  clean (snd (run fs c ops1)) = true /\ clean (snd (run fs c ops2)) = true /\
+  c_cache (fst (run fs c ops1)) = c_cache (fst (run fs c ops2)) /\
+  c_cache (fst (run fs c ops1)) = [("a", Leaf (VInt 2)); ("b", Leaf (VInt 9))].
+Proof.
+  cbv zeta.
+  assert (H1 : cache_ok (blank (Node []) (Node []) (Some "sys") (Some "usr") None None "INVOKE_"))
+    by (vm_compute; reflexivity).
+  assert (H4 : Permutation
+                 [LoadDefaults (Node [("a", Leaf (VInt 1)); ("b", Leaf (VInt 1))]); LoadSystem;
+                  LoadOverrides (Node [("b", Leaf (VInt 9))])]
+                 [LoadOverrides (Node [("b", Leaf (VInt 9))]);
+                  LoadDefaults (Node [("a", Leaf (VInt 1)); ("b", Leaf (VInt 1))]); LoadSystem]).
+  { apply Permutation_sym.
+    apply (Permutation_cons_append
+             [LoadDefaults (Node [("a", Leaf (VInt 1)); ("b", Leaf (VInt 1))]); LoadSystem]
+             (LoadOverrides (Node [("b", Leaf (VInt 9))]))). }
+  assert (H2 : Forall (fun x => is_plain_load x = true)
+                 [LoadDefaults (Node [("a", Leaf (VInt 1)); ("b", Leaf (VInt 1))]); LoadSystem;
+                  LoadOverrides (Node [("b", Leaf (VInt 9))])]) by (repeat constructor).
+  assert (H3 : NoDup (map load_tag
+                 [LoadDefaults (Node [("a", Leaf (VInt 1)); ("b", Leaf (VInt 1))]); LoadSystem;
+                  LoadOverrides (Node [("b", Leaf (VInt 9))])])).
+  { vm_compute. repeat constructor; simpl; intuition discriminate. }
+  split; [exact H1|]. split; [exact H2|]. split; [exact H3|]. split; [exact H4|].
+  split; [vm_compute; reflexivity|]. split; [vm_compute; reflexivity|].
+  split; [|vm_compute; reflexivity].
+  apply C03_load_order_irrelevant; try assumption; vm_compute; reflexivity.
+Qed.
